@@ -8,6 +8,8 @@ import (
 	"crypto/cipher"
 	"encoding/binary"
 	"fmt"
+	"os"
+	"os/exec"
 	"testing"
 
 	"github.com/tjfoc/gmsm/sm4"
@@ -22,8 +24,94 @@ var R = hx.NewRecorder("C05", "cases = (key, block, direction, buffer layout) an
 	"oracle = independent SM4 (ref/rsm4: byte S-box + rotations, validated on the GM/T 0002 single and 1,000,000-iteration vectors); "+
 	"non-trivial = key not constant-byte; distinct by hash of (key, block, op)")
 
+// firstOp runs ONE kind of call as the very first use of the package in a fresh process ("the result for a block does
+// not depend on which blocks the same cipher object processed before" - nor on what the process did before): lazily
+// built tables must be ready whichever entry point comes first.
+func firstOp(kind string) int {
+	key := hx.MustHex("0123456789abcdeffedcba9876543210")
+	pt := hx.MustHex("0123456789abcdeffedcba9876543210")
+	ct := hx.MustHex("681edf34d206965e86b3e94f536e4246")
+	fail := func(f string, a ...interface{}) int {
+		fmt.Printf("FIRST-OP MISMATCH ("+kind+"): "+f+"\n", a...)
+		return 1
+	}
+	switch kind {
+	case "decrypt", "decrypt_inplace", "encrypt":
+		c, err := sm4.NewCipher(key)
+		if err != nil {
+			return fail("NewCipher: %v", err)
+		}
+		out := make([]byte, 16)
+		switch kind {
+		case "decrypt":
+			c.Decrypt(out, ct)
+			if !bytes.Equal(out, pt) {
+				return fail("Decrypt as first operation = %x, want %x", out, pt)
+			}
+		case "decrypt_inplace":
+			copy(out, ct)
+			c.Decrypt(out, out)
+			if !bytes.Equal(out, pt) {
+				return fail("in-place Decrypt as first operation = %x, want %x", out, pt)
+			}
+		default:
+			c.Encrypt(out, pt)
+			if !bytes.Equal(out, ct) {
+				return fail("Encrypt as first operation = %x, want %x", out, ct)
+			}
+		}
+	case "ecb_decrypt", "cbc_decrypt":
+		// one block of the standard vector followed by the padding block, computed by the reference
+		r := rsm4.Must(key)
+		padded := append(append([]byte{}, pt...), bytes.Repeat([]byte{16}, 16)...)
+		in := make([]byte, 32)
+		if kind == "ecb_decrypt" {
+			r.Encrypt(in[:16], padded[:16])
+			r.Encrypt(in[16:], padded[16:])
+			out, err := sm4.Sm4Ecb(key, in, false)
+			if err != nil || !bytes.Equal(out, pt) {
+				return fail("Sm4Ecb decrypt as first operation = %x (err %v), want %x", out, err, pt)
+			}
+		} else {
+			prev := make([]byte, 16) // default IV: zero
+			for i := 0; i < 32; i += 16 {
+				x := make([]byte, 16)
+				for j := range x {
+					x[j] = padded[i+j] ^ prev[j]
+				}
+				r.Encrypt(in[i:i+16], x)
+				prev = in[i : i+16]
+			}
+			out, err := sm4.Sm4Cbc(key, in, false)
+			if err != nil || !bytes.Equal(out, pt) {
+				return fail("Sm4Cbc decrypt as first operation = %x (err %v), want %x", out, err, pt)
+			}
+		}
+	}
+	return 0
+}
+
+func TestC05_FirstOperation(t *testing.T) {
+	exe, err := os.Executable()
+	if err != nil {
+		t.Skip("no executable path")
+	}
+	for _, kind := range []string{"decrypt", "decrypt_inplace", "encrypt", "ecb_decrypt", "cbc_decrypt"} {
+		cmd := exec.Command(exe, "-test.run=^$")
+		cmd.Env = append(os.Environ(), "C05_CHILD="+kind)
+		out, err := cmd.CombinedOutput()
+		if err != nil {
+			t.Fatalf("as the FIRST use of the package in a fresh process, %s gives a wrong result: %v\n%s", kind, err, out)
+		}
+		R.Case(true, hx.HashKey("firstop", kind), "first_operation")
+	}
+}
+
 func TestMain(m *testing.M) {
-	R.Require("key_buffer_reuse", "sbox_sweep_complete", "dst==src", "history>=3", "badkeylen")
+	if k := os.Getenv("C05_CHILD"); k != "" {
+		os.Exit(firstOp(k))
+	}
+	R.Require("first_operation", "key_buffer_reuse", "sbox_sweep_complete", "dst==src", "history>=3", "badkeylen")
 	R.Assume("ref/rsm4 reproduces both GM/T 0002 vectors (TestRefSelf in setup; single-block vector re-checked here)")
 	hx.Main(m, R)
 }
